@@ -43,6 +43,10 @@ a value has been materialised could not show.  Added:
        LazyHash2; invariant LzAbsStable) and require every hash to be the hash of the equal shared
        instance, eq / cmp to agree with Eq / Cmp, the member to be found exactly by equal keys and
        always by the same key.  Anti-vacuity: a flipped hash bit / look0 answer is rejected at its line.
+  Quick-tier sampling: row-backed records and containers holding a lazy value are always part of
+       the universe; "SuConcat.shared" (a concatenation whose shared buffer was extended by a
+       sibling - hidden state of the same kind) joined the representations kept at 45 % per value:
+       at the former 8 % the detection of seeded/C28-concat-hash-whole-buffer depended on the seed.
   Mutants (scratch worktree, quick, seed 1):
   M10 surecord.go   Hash2 without unpacking (the seeded change)                          tests green   VIOLATION (Row: equal values, different hashes)
   M11 surecord.go   Hash2 without unpacking only once a field has been cached            tests green   VIOLATION (episode get, hash)
